@@ -105,6 +105,8 @@ def strategy(tier):
                     "variant": draw(st.sampled_from(["random", "random", "dependent", "zerocol", "unit", "colscales"]))}
         c["solver_idx"] = draw(st.sampled_from([0, 0, 0, 0, 1, 2, 3, 4, 5, 6, 7]))
         c["hint"] = draw(st.sampled_from([None, None, "hermitian", "symmetric"]))
+        # documented LinSolve option dep_tol (accepted; must not change the solution)
+        c["dep_tol"] = draw(st.sampled_from([None, None, 1e-12, 1e-9]))
         if module in ("SystemOfEquations", "StaticCondensation"):
             c["give"] = draw(st.sampled_from(["both", "free", "prescribed"]))
             c["order"] = draw(st.sampled_from(["sorted", "sorted", "shuffled"]))
@@ -435,6 +437,10 @@ def check_case(case):
         elif case["hint"] == "symmetric" and sub_sym:
             base_kwargs["symmetric"] = True
             labels.append("hint")
+    dep_tol = case.get("dep_tol") if module in ("LinSolve", "SystemOfEquations") else None
+    if dep_tol is not None:
+        base_kwargs["dep_tol"] = dep_tol
+        labels.append(f"dep_tol_{dep_tol:g}")
     labels.append(f"solver_{sname}")
     iscg = sname == "CG"
     # ---- right-hand sides -----------------------------------------------------------------------------------
@@ -470,6 +476,8 @@ def check_case(case):
     # column whose non-trivial part is below 1e-7 of its norm (possible with the widely scaled columns of variant
     # "colscales", e.g. a load dominated by a decoupled dof) is legitimately accepted without an inner solve. For
     # that variant the solve claims are judged at 1e-6 instead of 1e-10 (a dropped or wrong column is O(1) off).
+    # (The documented dep_tol option is drawn but, as of this commit, LinSolve stores it without handing it to the
+    # wrapper, so no tighter bound can be demanded when it is given.)
     tol_sys = 1e-6 if case["rhs"]["variant"] == "colscales" else TOL_BE
 
     # ---- judge functions: return list of (claim, detail) ----------------------------------------------------
